@@ -938,7 +938,7 @@ func (handler *Handler) PreparedStatementResponseHandler(ctx context.Context, pa
 	// if prams_num > 0 params definition block will follow
 	// https://dev.mysql.com/doc/internals/en/com-stmt-prepare-response.html
 	if response.ParamsNum > 0 {
-		fieldTracker := NewPreparedStatementFieldTracker(handler, response.ColumnsNum)
+		fieldTracker := NewPreparedStatementFieldTrackerWithParams(handler, response.ParamsNum, response.ColumnsNum)
 		handler.setQueryHandler(fieldTracker.ParamsTrackHandler)
 	}
 
